@@ -31,7 +31,7 @@ type Cell<'a> = Rc<RefCell<Option<Term<'a>>>>;
 // ---------------------------------------------------------------------------------------------------
 // the correspondence op
 
-fn code_points(s: &str) -> String {
+pub fn code_points(s: &str) -> String {
     let mut out = String::new();
     for c in s.chars() {
         out.push(' ');
